@@ -71,14 +71,14 @@ theorem execSet_si (p : JVal) : Pres (SI none) (execSet p) := by
   unfold execSet; sg
 
 /-- **the `kill` command**: the pids it hands to `kill_process` are active, hence listed, hence have
-    their `Process` object -/
-@[aesop safe apply (rule_sets := [Sg])]
-theorem execKill_si (props : JVal) : Pres (SI none) (execKill props) := by
+    their `Process` object; in a justifying mode it must not name signal 9 -/
+theorem execKill_si_j (props : JVal) (hs : J.isSome = true → (props.get? "signum").bind toSignumJ ≠ some 9) :
+    Pres (SI J) (execKill props) := by
   intro s h
   unfold execKill
   simp only [bind]
   have hq0 := squiet_getWatcherCmd ((props.get? "name").getD .null) s
-  have h0 := getWatcherCmd_s (siLeafS0 none) ((props.get? "name").getD .null) s h
+  have h0 := getWatcherCmd_s (siLeafS0 J) ((props.get? "name").getD .null) s h
   generalize getWatcherCmd ((props.get? "name").getD .null) s = r0 at hq0 h0 ⊢
   obtain ⟨r, s0⟩ := r0
   cases r with
@@ -86,16 +86,32 @@ theorem execKill_si (props : JVal) : Pres (SI none) (execKill props) := by
   | ok u =>
     simp only [pure]
     have hq1 := squiet_activeProcs u s0
-    have h1 := activeProcs_s (siLeafS0 none) u s0 h0
+    have h1 := activeProcs_s (siLeafS0 J) u s0 h0
     have hact : ∀ q ∈ (activeProcs u s0).1, HasObj (activeProcs u s0).2 q := fun q hq =>
       hq1.ext.obj q (listed_hasObj h0.pid (activeProcs_subset u s0 q hq))
     generalize activeProcs u s0 = r1 at h1 hact ⊢
     obtain ⟨act, s1⟩ := r1
-    refine plainCoroutine_si _ [] s1 h1 ⟨?_, fun hn => by cases hn⟩
+    refine plainCoroutine_si _ [] s1 h1 ⟨?_, hs⟩
     intro q hq
     split at hq
     · exact hact q (List.mem_filter.mp hq).1
     · exact hact q hq
+
+@[aesop safe apply (rule_sets := [Sg])]
+theorem execKill_si (props : JVal) : Pres (SI none) (execKill props) :=
+  execKill_si_j props (fun hn => by cases hn)
+
+/-- **the `signal` command** with a signal other than 9 -/
+theorem execSignal_si_j (p : JVal) (hs : ((p.get? "signum").bind toSignumJ).getD 0 ≠ 9) : Pres (SI J) (execSignal p) := by
+  have h1 : ∀ u q, Pres (SI J) (sendSignal u q (((p.get? "signum").bind toSignumJ).getD 0)) := fun u q =>
+    sendSignal_s0 (siLeafS0 J) u q _ hs
+  have h2 : ∀ q c, Pres (SI J) (sendSignalChild q c (((p.get? "signum").bind toSignumJ).getD 0)) := fun q c =>
+    sendSignalChild_s0 (siLeafS0 J) q c _ hs
+  have h3 : ∀ c, Pres (SI J) (kKill c (((p.get? "signum").bind toSignumJ).getD 0)) := fun c =>
+    (siLeafS0 J).kKillN c _ "" (fun hh => hs hh.1)
+  unfold execSignal
+  aesop (add safe 0 apply h1, safe 0 apply h2, safe 0 apply h3) (erase sendSignal_s, sendSignalChild_s, LeafS.kKill)
+    (rule_sets := [Sg]) (config := { terminal := true, useDefaultSimpSet := false, useSimpAll := false, maxRuleApplications := 3000 })
 
 @[aesop safe apply (rule_sets := [Sg])]
 theorem execSignal_si (p : JVal) : Pres (SI none) (execSignal p) := by
@@ -122,28 +138,215 @@ theorem syncAdd_si (p : JVal) : Pres (SI none) (syncPlain "arbiter_add_watcher" 
 theorem execAdd_si (p : JVal) : Pres (SI none) (execAdd p) := by
   unfold execAdd; sg
 
+/-! ### `set` and `add` that do not bring `stop_signal = 9` in -/
+
+theorem optChange_stopSignal9 (key : String) (val : JVal) (h : optChange key val = some (.stopSignal 9)) :
+    key = "stop_signal" ∧ val = .int 9 := by
+  unfold optChange at h
+  split at h
+  all_goals first
+    | (simp at h; done)
+    | (split at h
+       · simp only [Option.some.injEq, OptChange.stopSignal.injEq] at h
+         rename_i i hv
+         refine ⟨rfl, ?_⟩
+         simp only [validSignum, Bool.and_eq_true, decide_eq_true_eq] at hv
+         congr 1
+         omega
+       · cases h)
+
+theorem lookup_mem_pair {α β : Type} [BEq α] [LawfulBEq α] (l : List (α × β)) (k : α) (v : β) (h : l.lookup k = some v) :
+    (k, v) ∈ l := by
+  induction l with
+  | nil => cases h
+  | cons x xs ih =>
+    obtain ⟨a, b⟩ := x
+    simp only [List.lookup] at h
+    split at h
+    · rename_i he
+      simp only [Option.some.injEq] at h
+      have : k = a := by simpa using he
+      rw [this, h]; exact List.mem_cons_self
+    · exact List.mem_cons_of_mem _ (ih h)
+
+theorem hooks_ne (x : String) : "hooks." ++ x ≠ "stop_signal" := by
+  intro h
+  have := congrArg String.toList h
+  simp at this
+
+/-- an options object without the pair `stop_signal: 9` -/
+def optsSafe (props : JVal) : Prop :=
+  ∀ kvs, props.get? "options" = some (.obj kvs) → ∀ kv ∈ kvs, ¬ (kv.1 = "stop_signal" ∧ kv.2 = .int 9)
+
+theorem setOpt_si_j (u : Nat) (k : String) (v : JVal) (h : ¬ (k = "stop_signal" ∧ v = .int 9)) : Pres (SI J) (setOpt u k v) := by
+  have hw : ∀ c, optChange k v = some c → Pres (SI J) (setWOpt u c) := fun c hc =>
+    setWOpt_si_j u c (fun h9 => h (optChange_stopSignal9 k v (by rw [hc, h9])))
+  unfold setOpt
+  apply Pres.ite
+  · sg
+  · cases hc : optChange k v with
+    | none => sg
+    | some c =>
+      have := hw c hc
+      simp only
+      aesop (add safe 0 apply this) (erase setWOpt_si) (rule_sets := [Sg])
+        (config := { terminal := true, useDefaultSimpSet := false, useSimpAll := false, maxRuleApplications := 3000 })
+
+theorem syncSetOpt_si_j (u : Nat) (k : String) (v : JVal) (b : Bool) (h : ¬ (k = "stop_signal" ∧ v = .int 9)) :
+    Pres (SI J) (syncPlain "watcher_set_opt" (setOptBody u k v b)) := by
+  have h1 := setOpt_si_j (J := J) u k v h
+  refine syncPlain_si _ _ ?_
+  unfold setOptBody
+  aesop (add safe 0 apply h1) (erase setOpt_si) (rule_sets := [Sg])
+    (config := { terminal := true, useDefaultSimpSet := false, useSimpAll := false, maxRuleApplications := 3000 })
+
+theorem execSet_si_j (props : JVal) (hs : optsSafe props) : Pres (SI J) (execSet props) := by
+  have hhook : ∀ u x v b, Pres (SI J) (syncPlain "watcher_set_opt" (setOptBody u ("hooks." ++ x) v b)) := fun u x v b =>
+    syncSetOpt_si_j u _ v b (fun hh => hooks_ne x hh.1)
+  unfold execSet
+  -- the options object, as `Set.execute` reads it (the compiled `match` of `execSet`)
+  generalize hopts : execSet.match_1 (fun _ => List (String × JVal)) (props.get? "options") (fun kvs => kvs) (fun _ => []) = opts
+  have hmem : ∀ kv ∈ opts, ¬ (kv.1 = "stop_signal" ∧ kv.2 = .int 9) := by
+    intro kv hkv
+    rw [← hopts] at hkv
+    split at hkv
+    · rename_i kvs ho
+      exact hs kvs ho kv hkv
+    · cases hkv
+  have hval : ∀ u key b, Pres (SI J) (syncPlain "watcher_set_opt" (setOptBody u key
+      (((JVal.obj opts).get? key).getD .null) b)) := by
+    intro u key b
+    apply syncSetOpt_si_j
+    rintro ⟨rfl, hv⟩
+    cases hg : (JVal.obj opts).get? "stop_signal" with
+    | none => rw [hg] at hv; simp at hv
+    | some v =>
+      rw [hg] at hv
+      simp only [Option.getD_some] at hv
+      subst hv
+      have hm := lookup_mem_pair _ _ _ hg
+      exact hmem ("stop_signal", .int 9) (List.mem_reverse.mp hm) ⟨rfl, rfl⟩
+  refine Pres.bind (getWatcherCmd_s (siLeafS0 J) _) (fun r => ?_)
+  cases r with
+  | error e => exact Pres.pure _
+  | ok u =>
+    dsimp only
+    refine Pres.bind (Pres.for_in _ _ _ (fun key st => ?_)) (fun st => ?_)
+    · apply Pres.ite
+      · apply Pres.ite
+        · split
+          · refine Pres.bind (Pres.for_in _ _ _ (fun h st2 => ?_)) (fun _ => Pres.pure _)
+            apply Pres.ite
+            · refine Pres.bind (hhook u h.fst h.snd true) (fun r => ?_)
+              split <;> exact Pres.pure _
+            · exact Pres.pure _
+          · exact Pres.pure _
+        · refine Pres.bind (hval u key false) (fun r => ?_)
+          split
+          · exact Pres.pure _
+          · apply Pres.ite <;> exact Pres.pure _
+      · exact Pres.pure _
+    · sg
+
+theorem applyAddOptions_stopSignal (l : List (String × JVal)) (hl : ∀ kv ∈ l, ¬ (kv.1 = "stop_signal" ∧ kv.2 = .int 9)) :
+    ∀ (w w2 : Watcher), applyAddOptions w l = some w2 → w.stopSignal ≠ 9 → w2.stopSignal ≠ 9 := by
+  induction l with
+  | nil => intro w w2 h hw; simp only [applyAddOptions, Option.some.injEq] at h; rw [← h]; exact hw
+  | cons kv rest ih =>
+    intro w w2 h hw
+    obtain ⟨k, v⟩ := kv
+    simp only [applyAddOptions] at h
+    split at h
+    · rename_i w1 hw1
+      refine ih (fun kv hkv => hl kv (List.mem_cons_of_mem _ hkv)) w1 w2 h ?_
+      have hkv := hl (k, v) List.mem_cons_self
+      split at hw1
+      all_goals first
+        | (cases hw1; exact hw)
+        | (obtain ⟨n, _, rfl⟩ := Option.map_eq_some_iff.mp hw1; exact hw)
+        | (rename_i i
+           by_cases hv : validSignum i = true
+           · rw [if_pos hv] at hw1
+             cases hw1
+             intro h9
+             apply hkv
+             refine ⟨rfl, ?_⟩
+             show JVal.int i = JVal.int 9
+             simp only [validSignum, Bool.and_eq_true, decide_eq_true_eq] at hv
+             have h9' : i.toNat = 9 := h9
+             congr 1
+             omega
+           · rw [if_neg hv] at hw1
+             cases hw1; exact hw)
+    · exact absurd h (by simp)
+
+theorem addCore_si_j (p : JVal) (hs : optsSafe p) : Pres (SI J) (addCore p) := by
+  unfold addCore
+  split <;> dsimp only <;> split
+  all_goals first
+    | (rename_i name _
+       apply Pres.ite
+       · sg
+       · split
+         · sg
+         · rename_i w hw
+           have hp : w.pids = [] := applyAddOptions_pids _ _ _ hw
+           have h9 : w.stopSignal ≠ 9 := by
+             refine applyAddOptions_stopSignal _ ?_ _ _ hw (by simp)
+             intro kv hkv
+             first
+               | exact hs _ (by assumption) kv hkv
+               | cases hkv
+           have hr := registerNew_si_j (J := J) w hp h9
+           aesop (add safe apply hr) (rule_sets := [Sg]) (config := { terminal := true, useDefaultSimpSet := false, useSimpAll := false, maxRuleApplications := 3000 }))
+    | sg
+
+theorem execAdd_si_j (p : JVal) (hs : optsSafe p) : Pres (SI J) (execAdd p) := by
+  have h1 := syncPlain_si (J := J) "arbiter_add_watcher" (addCore p) (addCore_si_j p hs)
+  unfold execAdd
+  aesop (add safe 0 apply h1) (erase syncAdd_si) (rule_sets := [Sg])
+    (config := { terminal := true, useDefaultSimpSet := false, useSimpAll := false, maxRuleApplications := 3000 })
+
 /-! ### dispatch -/
 
-/-- the commands that cannot ask for a signal themselves -/
-def cmdSafe (c : String) : Prop := c ≠ "signal" ∧ c ≠ "kill" ∧ c ≠ "set" ∧ c ≠ "add"
+/-- the requests that do not bring signal 9 in themselves: no `signal` / `kill` whose `signum` resolves to 9, no
+    `set` / `add` with the option `stop_signal: 9` -/
+def reqSafe (c : String) (props : JVal) : Prop :=
+  (c = "signal" → ((props.get? "signum").bind toSignumJ).getD 0 ≠ 9) ∧
+  (c = "kill" → (props.get? "signum").bind toSignumJ ≠ some 9) ∧
+  (c = "set" → optsSafe props) ∧ (c = "add" → optsSafe props)
 
 @[aesop safe apply (rule_sets := [Sg])]
 theorem validateExecute_si (c : String) (p : JVal) : Pres (SI none) (validateExecute c p) := by
   unfold validateExecute; sg
 
-theorem validateExecute_si_j (c : String) (p : JVal) (hc : cmdSafe c) : Pres (SI J) (validateExecute c p) := by
+theorem validateExecute_si_j (c : String) (p : JVal) (hc : reqSafe c p) : Pres (SI J) (validateExecute c p) := by
   obtain ⟨h1, h2, h3, h4⟩ := hc
+  have hsg := execSignal_si_j (J := J) p
   unfold validateExecute
   apply Pres.ite
   · sg
   · split
     all_goals first
-      | (exfalso; first | exact h1 rfl | exact h2 rfl | exact h3 rfl | exact h4 rfl)
+      | (have hs := execSet_si_j (J := J) p (h3 rfl)
+         aesop (add safe 0 apply hs) (erase execSet_si) (rule_sets := [Sg])
+           (config := { terminal := true, useDefaultSimpSet := false, useSimpAll := false, maxRuleApplications := 3000 }))
+      | (have hs := execAdd_si_j (J := J) p (h4 rfl)
+         aesop (add safe 0 apply hs) (erase execAdd_si) (rule_sets := [Sg])
+           (config := { terminal := true, useDefaultSimpSet := false, useSimpAll := false, maxRuleApplications := 3000 }))
+      | (have hs := hsg (h1 rfl)
+         aesop (add safe 0 apply hs) (erase execSignal_si) (rule_sets := [Sg])
+           (config := { terminal := true, useDefaultSimpSet := false, useSimpAll := false, maxRuleApplications := 3000 }))
+      | (have hk' := execKill_si_j (J := J) p (fun _ => h2 rfl)
+         aesop (add safe 0 apply hk') (erase execKill_si) (rule_sets := [Sg])
+           (config := { terminal := true, useDefaultSimpSet := false, useSimpAll := false, maxRuleApplications := 3000 }))
       | sg
 
-/-- a control-socket frame whose command (if it has one) is none of `signal`, `kill`, `set`, `add` -/
+/-- a control-socket frame that does not itself bring signal 9 in: no `signal` / `kill` request for signal 9, no
+    `set` / `add` request with the option `stop_signal: 9` -/
 def msgSafe (msg : Option JVal) : Prop :=
-  ∀ j name, msg = some j → j.get? "command" = some (.str name) → cmdSafe (pyLower name)
+  ∀ j name, msg = some j → j.get? "command" = some (.str name) →
+    reqSafe (pyLower name) ((j.get? "properties").getD (.obj []))
 
 @[aesop safe apply (rule_sets := [Sg])]
 theorem handleMessage_si (cid : Option String) (msg : Option JVal) : Pres (SI none) (handleMessage cid msg) := by
@@ -163,8 +366,8 @@ theorem handleMessage_si_j (cid : Option String) (msg : Option JVal) (hm : msgSa
       | some nm =>
         cases nm with
         | str name =>
-          have hve : ∀ p, Pres (SI J) (validateExecute (pyLower name) p) := fun p =>
-            validateExecute_si_j _ p (hm j name rfl hcmd)
+          have hve : Pres (SI J) (validateExecute (pyLower name) ((j.get? "properties").getD (.obj []))) :=
+            validateExecute_si_j _ _ (hm j name rfl hcmd)
           simp only
           aesop (add safe 0 apply hve) (erase validateExecute_si) (rule_sets := [Sg])
             (config := { terminal := true, useDefaultSimpSet := false, useSimpAll := false, maxRuleApplications := 3000 })
@@ -178,8 +381,7 @@ theorem quit_safe : msgSafe (some (.obj [("command", .str "quit"), ("properties"
     simp [JVal.get?, List.lookup] at hc
     exact hc.symm
   subst this
-  unfold cmdSafe
-  decide +kernel
+  refine ⟨fun h => ?_, fun h => ?_, fun h => ?_, fun h => ?_⟩ <;> exact absurd h (by decide +kernel)
 
 theorem reload_safe : msgSafe (some reloadMsg) := by
   intro j name hj hc
@@ -189,8 +391,7 @@ theorem reload_safe : msgSafe (some reloadMsg) := by
     simp [reloadMsg, JVal.get?, List.lookup] at hc
     exact hc.symm
   subst this
-  unfold cmdSafe
-  decide +kernel
+  refine ⟨fun h => ?_, fun h => ?_, fun h => ?_, fun h => ?_⟩ <;> exact absurd h (by decide +kernel)
 
 /-- `SysHandler._quit`: a `quit` request, in any mode -/
 @[aesop safe apply (rule_sets := [Sg])]
@@ -232,8 +433,8 @@ theorem settle_si (n : Nat) : Pres (SI J) (settle n) := by
     unfold settle
     aesop (add safe apply ih, safe apply hs) (rule_sets := [Sg]) (config := { terminal := true, useDefaultSimpSet := false, useSimpAll := false, maxRuleApplications := 3000 })
 
-/-- the stimuli that cannot ask for a signal themselves: everything but a request for `signal`, `kill`,
-    `set` or `add` -/
+/-- the stimuli that do not bring signal 9 in themselves: everything but a `signal` / `kill` request for signal 9
+    and a `set` / `add` request with the option `stop_signal: 9` -/
 def OpSafe : Op → Prop
   | .req _ msg => msgSafe msg
   | _ => True
